@@ -327,3 +327,58 @@ def filter_facts_at(ctx, fn: FuncInfo, node: ast.AST, res: Resolver | None = Non
         if g.exit in g.reachable_from(other):
             keep.append((test, pol, tid))
     return facts_cnf(keep, res)
+
+
+def path_fact_sets(ctx, fn: FuncInfo, node: ast.AST, res: Resolver | None = None, limit: int = 4000) -> list[list[frozenset]]:
+    """Branch facts along every acyclic CFG path from the function entry to `node`: one CNF per path."""
+    g = ctx.cfg(fn)
+    res = res or resolver(ctx, fn)
+    target = g.node_of(node)
+    # nodes that can reach the target
+    back = set()
+    todo = [target]
+    while todo:
+        x = todo.pop()
+        if x in back:
+            continue
+        back.add(x)
+        todo.extend(g.pred[x])
+    out = []
+    cache = {}
+
+    def lits(nid):
+        nd = g.nodes[nid]
+        if nd.kind == 'branch' and g.nodes[nd.test].kind == 'test':
+            k = (nd.test, nd.polarity)
+            if k not in cache:
+                cache[k] = to_cnf(g.nodes[nd.test].expr, nd.polarity, res)
+            return cache[k]
+        return []
+    stack = [(g.entry, [], frozenset([g.entry]))]
+    while stack:
+        cur, facts, seen = stack.pop()
+        if cur == target:
+            out.append(facts)
+            if len(out) > limit:
+                raise AnalysisError(f'{fn.qualname}: too many paths')
+            continue
+        for s in g.succ[cur]:
+            if s in seen or s not in back:
+                continue
+            stack.append((s, facts + lits(s), seen | {s}))
+    return out
+
+
+def all_paths_imply(ctx, fn: FuncInfo, node: ast.AST, required, side_ok=lambda l: False, res: Resolver | None = None) -> tuple[bool, str]:
+    """On every acyclic path to `node`: the facts contain `required` (possibly in a clause whose other literals are
+    side_ok escapes), or a side_ok literal holds outright on that path."""
+    paths = path_fact_sets(ctx, fn, node, res)
+    if not paths:
+        return False, 'node unreachable'
+    for cl in paths:
+        if clause_implies(cl, required, side_ok):
+            continue
+        if any(len(c) == 1 and side_ok(next(iter(c))) for c in cl):
+            continue
+        return False, f'path with facts {describe_facts(cl)}'
+    return True, f'{len(paths)} path(s)'
